@@ -40,13 +40,13 @@ add("c18_fenwick_sum_l8_k4", 1200, "SumBitTree<u32> len 8, 4 updates", tier="tho
 # ---------------------------------------------------------------------------------------------------------------- C17
 add = prop("C17", "c17",
  "Bounded model checking of the real RankSelect code: for each listed bit-vector length n and superblock factor k, ALL 2^n bit contents and ALL query arguments (i in [0,n+1], j in [0,n+1]) are covered by one solver query each; rank_1/rank_0/get are compared with popcounts of a word model of the vector, select_1/select_0 against the declarative definition (the returned position holds a matching bit and exactly j matching bits lie at or before it; None iff j=0 or j exceeds the count; never a padding bit), and the inverse laws rank(select(j)) = j are asserted.",
- "Bound: rank at n in {1,7,8,9,31,33,40,65,72} (quick; k in {1,2}) + n=128 (thorough); select at n in {1,8,9,31,33,40} (quick) + {7,16,17,24,65,72; k in {1,2}} (thorough); rank/select inverse law at n=9 (quick), 33, 65 (thorough). " + TRUST + "Not decided: WaveletMatrix (its level construction partitions symbolic symbols into Vecs of symbolic length: n=3 timed out at 15 min, n>=5 out of memory).",
+ "Bound: rank at n in {1,7,8,9,31,33,40,65,72} (quick; k in {1,2}) + n=128 (k=2) and n=100 with k=3 (thorough); select at n in {1,8,9,31,33,40} (quick) + {7,16,17,24,65,72; k in {1,2}} (thorough); rank/select inverse law at n=9 (quick), 33, 65 (thorough). " + TRUST + "Not decided: WaveletMatrix (its level construction partitions symbolic symbols into Vecs of symbolic length: n=3 timed out at 15 min, n>=5 out of memory).",
  ["bio::data_structures::rank_select::RankSelect::{new,rank_1,rank_0,select_1,select_0,select_x,get}", "rank_select::superblocks", "rank_select::SuperblockRank::{cmp,deref}", "bv::BitVec<u8>::{new_fill,set,get_block,len,block_len}"],
  "n <= 128 bits for rank, n <= 72 bits for select (k in {1,2}); all bit contents and all query arguments symbolic",
- "longer bit vectors; superblock factors > 2; WaveletMatrix::rank",
+ "longer bit vectors; superblock factors > 3 (rank) / > 2 (select); WaveletMatrix::rank",
  ["bit vectors are built through BitVec::new_fill(false, n) + set_block for whole bytes + set(i, b) for the last partial byte: padding bits of the last byte are zero, as the API leaves them"])
 for n, k, t, tier in [(1, 1, 15, "quick"), (7, 1, 18, "quick"), (8, 1, 18, "quick"), (9, 1, 19, "quick"), (31, 1, 32, "quick"), (33, 1, 33, "quick"),
-                      (40, 1, 50, "quick"), (65, 1, 100, "quick"), (65, 2, 110, "thorough"), (72, 2, 120, "quick"), (128, 2, 229, "thorough")]:
+                      (40, 1, 50, "quick"), (65, 1, 100, "quick"), (65, 2, 110, "thorough"), (72, 2, 120, "quick"), (128, 2, 229, "thorough"), (100, 3, 200, "thorough")]:
     add(f"c17_rank_n{n}_k{k}", t, f"rank_1/rank_0/get, n={n} bits, k={k}, all contents, i in [0,n+1]", tier=tier, **({"min_covers": 1} if n <= 8 else {}))
 for n, k, t, tier in [(1, 1, 109, "quick"), (7, 1, 109, "thorough"), (8, 1, 127, "quick"), (9, 1, 125, "quick"), (16, 1, 130, "thorough"), (17, 1, 149, "thorough"),
                       (24, 1, 142, "thorough"), (31, 1, 164, "quick"), (33, 1, 202, "quick"), (40, 1, 215, "quick"), (65, 1, 464, "thorough"), (65, 2, 593, "thorough"), (72, 2, 636, "thorough")]:
